@@ -5,8 +5,12 @@
 package conc
 
 import (
+	"runtime"
+	"sort"
+	"strings"
 	"sync"
 	"sync/atomic"
+	"time"
 
 	"pgregory.net/rapid"
 )
@@ -57,6 +61,70 @@ func RunRaced(bodies []func()) (panics []any) {
 		}()
 	}
 	close(start)
-	wg.Wait()
-	return panics
+	done := make(chan struct{})
+	go func() { wg.Wait(); close(done) }()
+	for waited := 0; ; waited++ {
+		select {
+		case <-done:
+			return panics
+		case <-time.After(time.Second):
+		}
+		if waited < 10 {
+			continue
+		}
+		// Not finished after 10 s: if every unfinished thread of the program is parked (lock, semaphore, condition,
+		// channel) and is found in exactly the same place two seconds later, nothing can ever wake them - the
+		// program has deadlocked. The verdict rests on the state of the goroutines, not on the time that has passed.
+		a := parkedBodies()
+		if a == "" {
+			continue
+		}
+		time.Sleep(2 * time.Second)
+		if b := parkedBodies(); b == a {
+			select {
+			case <-done:
+				return panics
+			default:
+			}
+			mu.Lock()
+			panics = append(panics, "DEADLOCK: every unfinished thread of the program is parked and stays where it is:\n"+a)
+			out := append([]any(nil), panics...)
+			mu.Unlock()
+			return out // the parked goroutines are left behind
+		}
+	}
+}
+
+// parkedBodies returns a description of the unfinished program threads if all of them are parked, "" otherwise.
+func parkedBodies() string {
+	buf := make([]byte, 4<<20)
+	n := runtime.Stack(buf, true)
+	if n == len(buf) {
+		return ""
+	}
+	var desc []string
+	for _, g := range strings.Split(string(buf[:n]), "\n\n") {
+		if !strings.Contains(g, "conc.RunRaced.func1") {
+			continue
+		}
+		head := g[:strings.IndexByte(g+"\n", '\n')]
+		parked := false
+		for _, st := range []string{"[sync.RWMutex.RLock", "[sync.RWMutex.Lock", "[sync.Mutex.Lock", "[semacquire", "[sync.Cond.Wait", "[chan receive", "[chan send", "[select"} {
+			parked = parked || strings.Contains(head, st)
+		}
+		if !parked {
+			return ""
+		}
+		lines := strings.Split(g, "\n")
+		if len(lines) > 7 {
+			lines = lines[:7]
+		}
+		// goroutine ids and states, without the ", N minutes" suffix that changes over time
+		if i := strings.Index(lines[0], ","); i > 0 {
+			lines[0] = lines[0][:i] + "]:"
+		}
+		desc = append(desc, strings.Join(lines, "\n"))
+	}
+	sort.Strings(desc)
+	return strings.Join(desc, "\n")
 }
